@@ -14,6 +14,7 @@ import glob
 import json
 import os
 import random
+import re
 import shutil
 import subprocess
 import tempfile
@@ -224,7 +225,16 @@ def run(prop, tree, report, seed):
     must = {v for v, e in expected.items() if prop in e.get("reported_by", [])}
     seeded = sorted(os.path.join(VERIF, "seeded", v, "patch.diff") for v in own | must
                     if os.path.exists(os.path.join(VERIF, "seeded", v, "patch.diff")))
-    twins = sorted(glob.glob(os.path.join(VERIF, "twins", "*", "patch.diff")))
+    # the twins that touch a file in which this check analysed something (a patch elsewhere cannot change what it sees)
+    covered_files = {str(k).split(":")[0] for k in report.analysed}
+    twins = []
+    for p in sorted(glob.glob(os.path.join(VERIF, "twins", "*", "patch.diff"))):
+        try:
+            touched = set(re.findall(r"^\+\+\+ b/(\S+)", open(p).read(), re.M))
+        except OSError:
+            continue
+        if touched & covered_files or not covered_files:
+            twins.append(p)
     jobs = [(prop, p) for p in seeded + twins]
     res = {}
     if jobs:
